@@ -438,6 +438,7 @@ class AckMonitor(Monitor):
         self.check_timeliness = check_timeliness
         self.slack = slack
         self.pending_next = {}  # (ep, space) -> set(pn) to be covered by next packet in that space
+        self.maybe_accepted = set()  # (ep, space, pn) possibly accepted earlier from a corrupted copy
 
     def on_deliver(self, ep, rec, from_addr, t, altered=False):
         if altered:
@@ -445,6 +446,9 @@ class AckMonitor(Monitor):
             for v in self.sim.views_possibly_intact(rec, altered):
                 if v.pn is not None and not v.error:
                     self.delivered.setdefault((ep.name, v.space), set()).add(v.pn)
+                    # ... and may already have been accepted (and acknowledged) from this copy, in
+                    # which case the genuine copy that follows is a duplicate and owes nothing
+                    self.maybe_accepted.add((ep.name, v.space, v.pn))
             return
         for v in rec.views or []:
             if v.pn is None or v.error:
@@ -458,6 +462,9 @@ class AckMonitor(Monitor):
                 continue
             self.largest[key] = v.pn
             if not self.check_timeliness or ep.terminated:
+                continue
+            if (ep.name, sp, v.pn) in self.maybe_accepted:
+                self.exempt += 1
                 continue
             if sp == "A":
                 closing = ep.conn._state.name in ("CLOSING", "DRAINING", "TERMINATED") or ep.conn._close_pending
@@ -702,7 +709,7 @@ class CloseMonitor(Monitor):
             if st is not None and self.on_time:
                 t0, pto0, kind = st
                 self.deadline_checks += 1
-                if t > t0 + 3 * pto0 + 1e-6:
+                if t > t0 + 3 * pto0 + 1e-6 + self._spin_slack(ep):
                     raise Violation("close:termination-later-than-3-pto", "%s began %s at t=%.4f with PTO %.4f but reported termination at t=%.4f (> t0+3*PTO=%.4f)" % (ep.name, kind, t0, pto0, t, t0 + 3 * pto0), None)
             elif st is None and self.on_time:
                 # idle timeout (or version negotiation failure): must not be later than the idle deadline
@@ -716,11 +723,17 @@ class CloseMonitor(Monitor):
                     idle = min(local, remote) if ep.handshake_complete else max(local, remote)
                     deadline = lr[0] + max(idle, 3 * lr[1])
                     self.close_kinds.add("idle")
-                    if t > deadline + 1e-6:
+                    if t > deadline + 1e-6 + self._spin_slack(ep):
                         raise Violation("close:idle-termination-late", "%s: last authentic packet processed at t=%.4f, negotiated idle timeout %.3f (3*PTO=%.3f), terminated at t=%.4f" % (ep.name, lr[0], idle, 3 * lr[1], t), None)
         elif ep.name in self.term:
             self.after_term_events += 1
             raise Violation("close:event-after-termination", "%s returned %s after ConnectionTerminated" % (ep.name, name), None)
+
+    @staticmethod
+    def _spin_slack(ep):
+        """The driver fires a timer late (by at most 50 ms) when the connection re-arms an already
+        expired deadline in a loop; deadlines are then judged with that much slack."""
+        return 0.0505 if getattr(ep, "spin_total", 0) else 0.0
 
     def on_step(self, ep, t, cause):
         if ep.terminated and ep.timer_at is not None:
